@@ -27,10 +27,10 @@ TIMEOUT_IS_VIOLATION = {'C18', 'C12', 'C19', 'C20'}
 RUN_TIMEOUT_S = 60.0
 
 TIERS = {
-    # property: (quick runs, thorough runs)
-    'C05': (16000, 600000), 'C07': (16000, 600000), 'C13': (12000, 400000),
-    'C14': (12000, 400000), 'C18': (16000, 600000), 'C12': (8000, 300000),
-    'C09': (6000, 200000), 'C11': (6000, 200000), 'C19': (8000, 300000), 'C20': (6000, 200000),
+    # property: (quick runs, thorough runs); quick is sized for roughly 20 s on 16 cores
+    'C05': (20000, 600000), 'C07': (60000, 1200000), 'C13': (24000, 500000),
+    'C14': (20000, 500000), 'C18': (50000, 1000000), 'C12': (20000, 400000),
+    'C09': (30000, 400000), 'C11': (40000, 500000), 'C19': (40000, 1000000), 'C20': (8000, 200000),
 }
 WALL_CAP = {'quick': 150.0, 'thorough': 3000.0}
 
